@@ -38,8 +38,11 @@ func (c *dupImportChecker) WalkFile(f *ast.File) {
 		imports[pkg] = append(imports[pkg], importDcl)
 	}
 
-	for _, importList := range imports {
-		if len(importList) == 1 {
+	// Report groups in the order of their first import so that
+	// the output does not depend on the map iteration order.
+	for _, importDcl := range f.Imports {
+		importList := imports[importDcl.Path.Value]
+		if len(importList) == 1 || importList[0] != importDcl {
 			continue
 		}
 		c.warn(importList)
